@@ -21,7 +21,8 @@ RULE = (
     "127/128/16383/16384/2^32-1, neighbours directly before and after the table). "
     "Client.table(T.1), Client.bulktable(T, bulk in {1,3,10,50}), PyWrapper.table and "
     "PyWrapper.bulktable against the reference agent; oracle: rows == {index: {'0': dotted "
-    "index, column: value}} built from the database, equal between variants. Non-trivial: "
+    "index, column: value}} built from the database, equal between variants; one case in four "
+    "runs six fetches in a row on ONE client (nothing may carry over). Non-trivial: "
     ">=1 cell; distinct by (columns, row indexes, sparsity pattern, variant, bulk, level)."
 )
 ASSUMPTIONS = [
@@ -65,9 +66,15 @@ def normalise(result, py=False):
     return rows, problems
 
 
-def run_one(R, level, table, entry, cells, db, variant, bulk, label):
-    w = World(level, db)
-    w.seam.budget = 4 * (len(cells) + 2) + 12
+def run_one(R, level, table, entry, cells, db, variant, bulk, label, w=None):
+    if w is None:
+        w = World(level, db)
+    else:
+        # the SAME client fetches again: nothing may be carried over between fetches
+        w.prime() if not w.seam.events else None
+        w.seam.reset()
+        R.mon["fetches_on_a_reused_client"] += 1
+    w.seam.budget = 4 * (len(cells) + 2) + 12 + 2
     py = variant.startswith("py")
     try:
         if variant == "table":
@@ -145,8 +152,11 @@ def run(R):
         if i % 3 == 0:
             run_one(R, level, table, entry, cells, db, "pytable", None, "gen")
             run_one(R, level, table, entry, cells, db, "pybulktable", BULKS[i % 4], "gen")
-        if level != "v2c" and i % 5 == 0:
-            pass
+        if i % 4 == 1:
+            # one client, several fetches in a row (incl. the same fetch twice)
+            w = World(level, db)
+            for variant, bulk in (("table", None), ("table", None), ("bulktable", BULKS[i % 4]), ("pytable", None), ("table", None), ("pybulktable", BULKS[(i + 1) % 4])):
+                run_one(R, level, table, entry, cells, db, variant, bulk, "reuse", w=w)
     if R.shard == 0:
         # v1 speaks GETNEXT only: table() must work there too
         rng = R.rng("v1")
